@@ -52,6 +52,42 @@ pub fn run(ctx: &mut Ctx, _replay: Option<&[String]>) {
         let t4 = if cfg.backtrack_cols > 0 && cfg.backtrack_trials > 0 { "backtracking-on" } else { "backtracking-off" };
         ctx.emit(&format!("c16 mn {} {}", mn_cfg_str(&cfg), seed), &out, out.starts_with("ok"), &[t1, t2, t3, t4]);
     }
+    // (b) girth requests whose trial budget really runs out while backtracking is allowed, and degenerate shapes (no rows / no columns /
+    // column weight 0): the validator and the column-weight / row-weight / girth predicates judge every successful result
+    let extra = ctx.scale(2500, 60000);
+    for k in 0..extra {
+        let cfg = if k % 5 == 4 {
+            mackay_neal::Config {
+                nrows: *rng.pick(&[0usize, 0, 1, 1, 2]), ncols: *rng.pick(&[0usize, 1, 2, 3, 5]), wr: rng.range(1, 4), wc: *rng.pick(&[0usize, 1, 1, 2]),
+                backtrack_cols: rng.below(3), backtrack_trials: rng.below(4),
+                min_girth: if rng.chance(1, 2) { None } else { Some(*rng.pick(&[4usize, 6])) }, girth_trials: rng.below(3),
+                fill_policy: if rng.chance(1, 2) { FillPolicy::Uniform } else { FillPolicy::Random },
+            }
+        } else {
+            // tight for the girth request: about as many columns as a graph of that girth can hold, so that the last columns are rejected
+            // again and again, the trial budget runs out, columns are undone and re-inserted
+            let nrows = rng.range(6, 12);
+            let wc = 2;
+            let ncols = rng.range(nrows, nrows + 4);
+            let need = (ncols * wc).div_ceil(nrows);
+            mackay_neal::Config {
+                nrows, ncols, wr: need + rng.below(2), wc,
+                backtrack_cols: rng.range(1, 4), backtrack_trials: rng.range(10, 40),
+                min_girth: Some(*rng.pick(&[6usize, 6, 8, 5, 7])), girth_trials: rng.below(3),
+                fill_policy: if rng.chance(1, 2) { FillPolicy::Uniform } else { FillPolicy::Random },
+            }
+        };
+        let seed = rng.next() % 100_000;
+        let c2 = cfg.clone();
+        let out = match guarded(move || c2.run(seed)) {
+            Ok(Ok(h)) => format!("ok {} same", sm(&h)),
+            Ok(Err(_)) => "err".to_string(),
+            Err(_) => "panic".to_string(),
+        };
+        let t1 = if out.starts_with("ok") { "mn-ok" } else if out == "err" { "mn-err" } else { "mn-panic" };
+        let t2 = if k % 5 == 4 { "degenerate-shape" } else { "girth-trials-0..3-with-backtracking" };
+        ctx.emit(&format!("c16 mn {} {}", mn_cfg_str(&cfg), seed), &out, out.starts_with("ok"), &[t1, t2]);
+    }
     for k in 0..ctx.scale(300, 30000) {
         let nrows = rng.range(1, if k % 6 == 0 { 30 } else { 10 });
         let ncols = rng.range(1, if k % 6 == 0 { 60 } else { 20 });
